@@ -57,11 +57,10 @@ MANIFEST = dict(
     design="4/C06, B.2")
 
 # defect classes that are still present in /repo (status "known" in findings/C06.json)
-KNOWN_ORDER = [
-    "qua-meta-isv-default-str",
-]
+KNOWN_ORDER = []
 # defect classes repaired in /repo (status "fixed"): still recognised and named by `reasons`, but a recurrence is a VIOLATION
 FIXED_KEYS = [
+    "qua-meta-isv-default-str",
     "qua-read-holds-all-omit-starttime-keyerror",
     "qua-read-all-omit-lane-attributeerror",
     "qua-read-hold-omitted-starttime-length0",
